@@ -10,7 +10,7 @@ import vlib, mmlgen
 
 COQ_TARGET = "props/C17.v"
 THEOREMS = ["C17_sorted_invariant", "C17_longest", "C17_zen2han", "C17_zen2han_is_width_map", "C17_table_no_ascii",
-            "C17_ascii_identity", "C17_strings_comments_verbatim", "C17_hash_comment_refuted", "C17_user_defs",
+            "C17_ascii_identity", "C17_strings_comments_verbatim", "C17_unterminated", "C17_hash_comment_refuted", "C17_user_defs",
             "C17_homomorphism_general", "C17_homomorphism", "C17_same_mml", "C17_total"]
 DRIVERS = ["sutoton"]
 RULE = ("readings = 1..14 pieces, each a row of the regenerated vocabulary (every row occurs in every tier, every pair "
